@@ -1162,13 +1162,15 @@ class SpaceGraph(nx.DiGraph):
 
         while True:
 
-            if basroot in self.get_mro(subroot):
+            # subroot is empty when subspace is a top-level space having
+            # the same name as the last part of basespace
+            if subroot and basroot in self.get_mro(subroot):
                 break
 
             if shared_desc:
                 n = shared_desc.pop(0)
-                subroot = ".".join(subroot.split(".") + [n])
-                basroot = ".".join(basroot.split(".") + [n])
+                subroot = subroot + "." + n if subroot else n
+                basroot = basroot + "." + n if basroot else n
             else:
                 raise RuntimeError("must not happen")
 
